@@ -64,7 +64,9 @@ PROPERTY_FIELDS = ["vector", "costs", "costs_signed", "population_id", "custom",
 
 # --------------------------------------------------------------------------------------------------
 # descriptions: None / bool / int / str as themselves, {"f": hex} python float, {"nf": hex} numpy float64,
-# list, {"t": [...]} tuple, {"a": [hex, ...]} 1-d numpy float64 array, {"d": [[key, value], ...]} dict,
+# {"ni": n} numpy int64 scalar, {"nb": b} numpy bool_ scalar (stored as the JSON integer / boolean of the same value:
+# datastore._json_default, fix F12), list, {"t": [...]} tuple, {"a": [hex, ...]} 1-d numpy float64 array,
+# {"ai": [n, ...]} 1-d numpy int64 array, {"d": [[key, value], ...]} dict,
 # {"ind": id} an Individual (only inside features / parents / children)
 # --------------------------------------------------------------------------------------------------
 def fbits(h):
@@ -108,10 +110,16 @@ def enc_jv(v):
         return "(JArr %s)" % ll(v, enc_jv)
     if "f" in v or "nf" in v:
         return "(F %d)" % fbits(v.get("f", v.get("nf")))
+    if "ni" in v:
+        return "(N %s)" % zl(v["ni"])
+    if "nb" in v:
+        return "(JBool %s)" % ("true" if v["nb"] else "false")
     if "t" in v:
         return "(JArr %s)" % ll(v["t"], enc_jv)
     if "a" in v:
         return "(JArr %s)" % ll(v["a"], lambda h: "(F %d)" % fbits(h))
+    if "ai" in v:
+        return "(JArr %s)" % ll(v["ai"], lambda n: "(N %s)" % zl(n))
     if "d" in v:
         return "(JObj %s)" % ll(sorted(v["d"], key=lambda kv: kv[0]), lambda kv: pl(sl(kv[0]), enc_jv(kv[1])))
     raise ValueError("not a JSON-able description: %r" % (v,))
@@ -130,12 +138,18 @@ def enc_pv(v):
     if isinstance(v, dict):
         if "f" in v or "nf" in v:
             return "(PF %d)" % fbits(v.get("f", v.get("nf")))
+        if "ni" in v:
+            return "(PN %s)" % zl(v["ni"])
+        if "nb" in v:
+            return "(PBool %s)" % ("true" if v["nb"] else "false")
         if "ind" in v:
             return "(PInd %s)" % zl(v["ind"])
         if "t" in v:
             return "(PSeq %s)" % ll(v["t"], enc_pv)
         if "a" in v:
             return "(PSeq %s)" % ll(v["a"], lambda h: "(PF %d)" % fbits(h))
+        if "ai" in v:
+            return "(PSeq %s)" % ll(v["ai"], lambda n: "(PN %s)" % zl(n))
         if "d" in v and not v["d"]:
             return "(PSeq [])"
     raise ValueError("outside the model: feature value %r" % (v,))
@@ -158,6 +172,8 @@ def seq_items(v):
         return v["t"]
     if "a" in v:
         return [{"nf": h} for h in v["a"]]
+    if "ai" in v:
+        return [{"ni": n} for n in v["ai"]]
     raise ValueError("not a sequence description: %r" % (v,))
 
 
@@ -196,12 +212,18 @@ def canon(v):
         return ("list", tuple(canon(x) for x in v))
     if "f" in v or "nf" in v:
         return ("float", float.fromhex(v.get("f", v.get("nf"))).hex())
+    if "ni" in v:
+        return ("int", v["ni"])
+    if "nb" in v:
+        return ("bool", v["nb"])
     if "ind" in v:
         return ("int", v["ind"])
     if "t" in v:
         return ("list", tuple(canon(x) for x in v["t"]))
     if "a" in v:
         return ("list", tuple(("float", float.fromhex(h).hex()) for h in v["a"]))
+    if "ai" in v:
+        return ("list", tuple(("int", n) for n in v["ai"]))
     if "d" in v:
         return ("dict", tuple(sorted((k, canon(x)) for k, x in v["d"])))
     raise ValueError(v)
@@ -226,10 +248,16 @@ def plain(v, feature=False):
         return [plain(x, feature) for x in v]
     if "f" in v or "nf" in v:
         return {"f": v.get("f", v.get("nf"))}
+    if "ni" in v:
+        return v["ni"]
+    if "nb" in v:
+        return v["nb"]
     if "t" in v:
         return [plain(x, feature) for x in v["t"]]
     if "a" in v:
         return [{"f": h} for h in v["a"]]
+    if "ai" in v:
+        return list(v["ai"])
     if "ind" in v:
         return v["ind"]
     if "d" in v:
@@ -310,6 +338,10 @@ def rvec(rng, n, p_inf=0.1):
 
 def rjson(rng, depth=0):
     r = rng.random()
+    if depth >= 1 and r < 0.06:         # numpy values the repaired store turns into plain JSON
+        return rng.choice([{"ni": rng.choice([0, 18, -5, 2 ** 62])}, {"nb": rng.random() < 0.5},
+                           {"ai": [rng.randint(-9, 9) for _ in range(rng.randint(0, 3))]},
+                           {"a": [rfinite(rng).popitem()[1] for _ in range(rng.randint(0, 3))]}])
     if depth >= 3 or r < 0.35:
         k = rng.randrange(8)
         if k <= 1:
@@ -339,7 +371,7 @@ def rfeature_value(rng, ids, depth=0):
     if r < 0.25:
         return rfloat(rng)
     if r < 0.35:
-        return rng.choice([0, 1, 7, -1, None, True, False])
+        return rng.choice([0, 1, 7, -1, None, True, False, {"ni": 3}, {"ni": -2 ** 40}, {"nb": True}, {"ai": [1, 2, 3]}])
     if r < 0.5:
         return [rref(rng, ids) if rng.random() < 0.6 else rng.choice(ids) for _ in range(rng.randint(0, 4))]
     if r < 0.6:
@@ -382,7 +414,10 @@ def rfeatures(rng, ids, m):
 
 def rind(rng, iid, ids, dim, m):
     costs = rvec(rng, m, 0.05) if rng.random() < 0.9 else []
-    if costs:
+    if costs and rng.random() < 0.12:   # an objective that returns ints: calc_signed_costs makes numpy.int64 of them
+        costs = [rng.choice([0, 5, 18, -3, 10 ** 6]) for _ in range(m)]
+        cs = [{"ni": c * rng.choice([1, -1])} for c in costs] + [rng.choice([True, False])]
+    elif costs:
         cs = [{"nf": x.get("f", x.get("nf"))} if isinstance(x, dict) else x for x in seq_items(costs)] + [rng.choice([True, False])]
     else:
         cs = []
@@ -547,10 +582,16 @@ def run(ctx):
             return float.fromhex(v["f"])
         if "nf" in v:
             return np.float64(float.fromhex(v["nf"]))
+        if "ni" in v:
+            return np.int64(v["ni"])
+        if "nb" in v:
+            return np.bool_(v["nb"])
         if "t" in v:
             return tuple(build(x, live) for x in v["t"])
         if "a" in v:
             return np.array([float.fromhex(h) for h in v["a"]], dtype=np.float64)
+        if "ai" in v:
+            return np.array(v["ai"], dtype=np.int64)
         if "d" in v:
             return {k: build(x, live) for k, x in v["d"]}
         if "ind" in v:
@@ -567,6 +608,10 @@ def run(ctx):
             return x
         if isinstance(x, Individual):
             return {"ind": x.id}
+        if isinstance(x, np.bool_):
+            return {"nb": bool(x)}
+        if isinstance(x, np.int64):
+            return {"ni": int(x)}
         if isinstance(x, np.float64):
             return {"nf": float(x).hex()}
         if isinstance(x, float):
@@ -576,6 +621,8 @@ def run(ctx):
         if isinstance(x, np.ndarray):
             if x.ndim == 1 and x.dtype == np.float64:
                 return {"a": [float(y).hex() for y in x]}
+            if x.ndim == 1 and x.dtype == np.int64:
+                return {"ai": [int(y) for y in x]}
             if x.ndim >= 1:
                 return [describe(y) for y in x]
         if isinstance(x, list):
@@ -723,6 +770,7 @@ def run(ctx):
                     fail("row for id %r that was never synchronised" % (iid,), case, "extra row", id=iid)
 
     cases, expected, meta = [], [], []
+    rcases, rexpected, rmeta = [], [], []
     hist = {"histories": 0, "degenerate_meta": 0, "ops": 0, "sync_individual": 0, "sync_all": 0, "individual_images": 0,
             "resynchronised_ids": 0, "rows": 0, "float_tokens": 0, "inf_tokens": 0, "numpy_scalars": 0, "individual_refs": 0,
             "thread_safe": 0, "single_connection": 0, "rewrite": 0, "reopened_in_write_mode": 0, "sync_all_with_reloaded": 0,
@@ -938,39 +986,6 @@ def run(ctx):
         b.close()
         hist["interleaved_pairs"] += 1
 
-    # ---- corpus first ------------------------------------------------------------------------------
-    cdir = os.path.join(os.path.dirname(os.path.dirname(os.path.abspath(__file__))), "corpus", "C10")
-    k = 0
-    if os.path.isdir(cdir):
-        for fn in sorted(os.listdir(cdir)):
-            if fn.endswith(".json"):
-                case = json.load(open(os.path.join(cdir, fn)))
-                case["kind"] = "corpus:" + fn[:-5]
-                history_case(case, k)
-                k += 1
-    n_corpus = k
-    for _ in range(ctx.pick(200, 1800)):
-        if saturated():
-            break
-        history_case(gen_history(rng), k)
-        k += 1
-    for _ in range(ctx.pick(20, 100)):
-        if saturated():
-            break
-        ca, cb = gen_history(rng), gen_history(rng)
-        if ca["ops"] and rng.random() < 0.7:        # the same individuals written to both stores
-            shared = [o for o in ca["ops"] if o["op"] != "reopen" and rng.random() < 0.7]
-            cb["ops"] = [o for o in cb["ops"] if o["op"] != "reopen"][:3] + shared
-            rng.shuffle(cb["ops"])
-            cb["reuse_objects"] = False             # (the objects of the other session carry its own descriptions)
-        history_pair(ca, cb, k)
-        k += 2
-    for _ in range(ctx.pick(12, 120)):
-        if saturated():
-            break
-        history_case(gen_history(rng, degenerate=True), k)
-        k += 1
-
     # ---- complete runs of the algorithms that synchronise -----------------------------------------
     from artap.operators import RandomGenerator, CustomGenerator
 
@@ -1009,6 +1024,14 @@ def run(ctx):
                 a.options[kk] = vv
             return a
         return mk
+
+    def a_sweep_int(p, n, g):
+        # designs on integer coordinates (what the swarm algorithms produce when a particle is clipped to integer bounds):
+        # the objective then returns Python ints
+        from artap.algorithm_sweep import SweepAlgorithm
+        gen = CustomGenerator(p.parameters)
+        gen.init([[1, 2], [-3, 3], [0, 0]][:max(2, n - 1)])
+        return SweepAlgorithm(p, generator=gen)
 
     def a_scipy(p, n, g):
         from artap.algorithm_scipy import ScipyOpt
@@ -1085,8 +1108,16 @@ def run(ctx):
             problem.data_store = store
             real_ind, real_all = store.sync_individual, store.sync_all
 
+            unmodelled = []
+            last = {}
+
             def rec_ind(individual):
-                case["ops"].append({"op": "sync", "ind": describe_ind(individual)})
+                last["ind"] = individual
+                try:
+                    case["ops"].append({"op": "sync", "ind": describe_ind(individual)})
+                except ValueError as e:         # a value the model has no token for: see what the store does with it
+                    unmodelled.append({"id": individual.id, "vector": repr(individual.vector), "costs": repr(individual.costs),
+                                       "costs_signed": repr(individual.costs_signed), "why": str(e)})
                 return real_ind(individual)
 
             def rec_all():
@@ -1098,7 +1129,19 @@ def run(ctx):
                 with shallow():
                     alg.run()
             except Exception as e:
-                fail("complete run of %s raised %s: %s" % (name, type(e).__name__, str(e)[:200]), dict(case, ops=len(case["ops"])), "run raises")
+                small = dict(case, ops="%d recorded store calls" % len(case["ops"]))
+                li = last.get("ind")
+                if isinstance(e, TypeError) and li is not None and any(isinstance(c, np.integer) for c in li.costs_signed):
+                    # finding F12: Individual.calc_signed_costs turns a Python int cost into numpy.int64, which json.dumps refuses
+                    ctx.oracle_failures.append({
+                        "what": "run of %s with an SQLite store aborts in sync_individual: %s: %s (signed costs %r computed by "
+                                "calc_signed_costs from the integer costs %r of design %r)" % (
+                                    name, type(e).__name__, e, li.costs_signed, li.costs, li.vector),
+                        "input": {"case": small, "individual": {"id": li.id, "vector": repr(li.vector), "costs": repr(li.costs),
+                                                                "costs_signed": repr(li.costs_signed)}},
+                        "match": {"kind": "signed_costs_numpy_int", "clause": "sync raises"}})
+                else:
+                    fail("complete run of %s raised %s: %s" % (name, type(e).__name__, str(e)[:200]), dict(small, unmodelled=unmodelled[-2:]), "run raises")
                 gc.collect()
                 return
             final = [describe_ind(i) for i in problem.individuals]
@@ -1113,9 +1156,9 @@ def run(ctx):
         if len(want) != len(final):
             ctx.notes.append("run %s: two recorded individuals share an id" % name)
         oracle(small, obs, want, False)
-        cases.append(enc_case(case))
-        expected.append(enc_expected(obs))
-        meta.append(small)
+        rcases.append(enc_case(case))
+        rexpected.append(enc_expected(obs))
+        rmeta.append(small)
         h = hist["runs"].setdefault(name, {"runs": 0, "store_calls": 0, "recorded": 0, "rows": 0})
         h["runs"] += 1
         h["store_calls"] += len(case["ops"])
@@ -1132,8 +1175,44 @@ def run(ctx):
         except OSError:
             pass
 
-    n_hist = len(cases)
+    # the run directed at finding F12 first (its failure must be reported under its own match, before other failures saturate)
+    run_case("sweep_integer_designs", 1, a_sweep_int, 3, 1, 99)
+
+    # ---- corpus first ------------------------------------------------------------------------------
+    cdir = os.path.join(os.path.dirname(os.path.dirname(os.path.abspath(__file__))), "corpus", "C10")
     k = 0
+    if os.path.isdir(cdir):
+        for fn in sorted(os.listdir(cdir)):
+            if fn.endswith(".json"):
+                case = json.load(open(os.path.join(cdir, fn)))
+                case["kind"] = "corpus:" + fn[:-5]
+                history_case(case, k)
+                k += 1
+    n_corpus = k
+    for _ in range(ctx.pick(200, 1200)):
+        if saturated():
+            break
+        history_case(gen_history(rng), k)
+        k += 1
+    for _ in range(ctx.pick(20, 80)):
+        if saturated():
+            break
+        ca, cb = gen_history(rng), gen_history(rng)
+        if ca["ops"] and rng.random() < 0.7:        # the same individuals written to both stores
+            shared = [o for o in ca["ops"] if o["op"] != "reopen" and rng.random() < 0.7]
+            cb["ops"] = [o for o in cb["ops"] if o["op"] != "reopen"][:3] + shared
+            rng.shuffle(cb["ops"])
+            cb["reuse_objects"] = False             # (the objects of the other session carry its own descriptions)
+        history_pair(ca, cb, k)
+        k += 2
+    for _ in range(ctx.pick(12, 120)):
+        if saturated():
+            break
+        history_case(gen_history(rng, degenerate=True), k)
+        k += 1
+
+    # ---- one complete run of every synchronising algorithm (thorough: six of different sizes) -------
+    k = 100
     for rep in range(ctx.pick(1, 6)):
         for name, m, mk in ALGS:
             if saturated():
@@ -1144,10 +1223,8 @@ def run(ctx):
     for name, why in sorted(skipped.items()):
         ctx.notes.append("algorithm %s not exercised: %s" % (name, why))
 
-    ctx.coq_compare("c10h", header(), "c10_case", "c10_obs", "c10_run", "c10_eqb", cases[:n_hist], expected[:n_hist], meta[:n_hist],
-                    shard=ctx.pick(20, 60))
-    ctx.coq_compare("c10r", header(), "c10_case", "c10_obs", "c10_run", "c10_eqb", cases[n_hist:], expected[n_hist:], meta[n_hist:],
-                    shard=ctx.pick(1, 3))
+    ctx.coq_compare("c10h", header(), "c10_case", "c10_obs", "c10_run", "c10_eqb", cases, expected, meta, shard=ctx.pick(20, 60))
+    ctx.coq_compare("c10r", header(), "c10_case", "c10_obs", "c10_run", "c10_eqb", rcases, rexpected, rmeta, shard=ctx.pick(1, 3))
     hist["corpus_cases"] = n_corpus
     hist["algorithms_not_exercised"] = skipped
     ctx.extra.update({"distribution": hist})
